@@ -30,3 +30,52 @@ def run_script(cfg, ops, oracles, prop, res=None, harvest=None):
         return w
     finally:
         w.close()
+
+
+# ---- full dynamic-id pool: departures and reuse ----------------------------------------------------------
+def _dyn_connect(c, ver="v2v1"):
+    return [{"op": "open"}, {"op": "connect", "c": c, "ver": ver, "id": 0, "logger": 0, "daemon": 0, "multi": 0,
+                             "name": "", "pid": 1}, {"op": "_drain"}]
+
+
+def pool_cycle_ops(setup, first_conn, prefill, refusals, cycles):
+    """All 100 dynamic ids get assigned (after `prefill` = list of ("c",)/("l", k) connect/leave steps that move the
+    rotating start), `refusals` further requests arrive while the pool is full (they may be refused), then for each
+    (pick, way, extra_refusals) in `cycles` the pick-th most recently assigned holder leaves (way 0 DISCONNECT, 1 FIN,
+    2 RST) and a new request for a dynamic id arrives at once - it must be accepted, because an id is free - followed
+    by `extra_refusals` requests against the full pool.  Returns (ops, number of connects that must be accepted)."""
+    ops = list(setup) + [{"op": "_drain"}]
+    live = []  # connection indices in order of assignment
+    nxt = first_conn
+    must = 0
+    for step in prefill:
+        if step[0] == "c" or not live:
+            ops += _dyn_connect(nxt, ["v2v1", "v1", "v2"][nxt % 3])
+            live.append(nxt)
+            must += 1
+            nxt += 1
+        else:
+            v = live.pop(step[1] % len(live))
+            ops += [{"op": "disconnect", "c": v}, {"op": "_drain"}]
+    while len(live) < 100:
+        ops += _dyn_connect(nxt)
+        live.append(nxt)
+        must += 1
+        nxt += 1
+    for _ in range(refusals):
+        ops += _dyn_connect(nxt)
+        nxt += 1
+    for pick, way, extra in cycles:
+        v = live.pop(len(live) - 1 - (pick % len(live)))
+        ops.append({"op": "disconnect", "c": v} if way == 0 else
+                   {"op": "close", "c": v, "how": "fin" if way == 1 else "rst", "gone": "silent"})
+        ops.append({"op": "_drain"})
+        ops += _dyn_connect(nxt)
+        live.append(nxt)
+        must += 1
+        nxt += 1
+        for _ in range(extra):
+            ops += _dyn_connect(nxt)
+            nxt += 1
+    ops.append({"op": "_probe"})
+    return ops, must
